@@ -62,3 +62,27 @@ def report(ctx: Ctx, mismatches: list[tuple], clauses: set[str] | None = None, k
         ctx.violate(clause, key, describe_event(e))
         n += 1
     return n
+
+
+ARG_FIELDS = ("op", "t", "u", "vb", "strict", "kind", "ai", "cc", "bban", "args", "country", "values", "seed",
+              "use_registry", "code", "bic", "account", "method")
+
+
+def replay(ctx: Ctx, module: str, env: dict, clauses: set | None = None, keyfn=None) -> None:
+    """Re-execute the calls of a replay file and validate them again."""
+    with open(ctx.replay) as fp:
+        rep = json.load(fp)
+    ops = [{k: v["detail"][k] for k in ARG_FIELDS if k in v["detail"]} for v in rep["violations"]
+           if "op" in v["detail"]]
+    events = execute(ctx, ops, "replay")
+    report(ctx, validate(ctx, module, events, env, "replay"), clauses, keyfn)
+
+
+def three_samples(ctx: Ctx, events: list[dict]) -> None:
+    if not events:
+        return
+    ctx.samples = [describe_event(e) for e in (events[0], events[len(events) // 2], events[-1])]
+    for s in ctx.samples:
+        for k in ("t", "u", "bban", "cc"):
+            if isinstance(s.get(k), list):
+                s.pop(k)
